@@ -38,6 +38,9 @@ func c06TieJournal(r *RNG) (*Journal, string) {
 		JDir{Kind: 'p', Date: day, Com: "BBB", Price: fmt.Sprintf("%d.%d", r.Range(1, 3), r.Intn(10)), Target: val},
 		JDir{Kind: 'p', Date: day, Com: "XXX", Price: fmt.Sprintf("%d", r.Range(2, 9)), Target: "AAA"},
 		JDir{Kind: 'p', Date: day, Com: "XXX", Price: fmt.Sprintf("%d", r.Range(2, 9)), Target: "BBB"},
+		// commodities that differ from others only in letter case are distinct commodities
+		JDir{Kind: 'p', Date: day, Com: "chf", Price: "1", Target: val},
+		JDir{Kind: 'p', Date: day, Com: "Aaa", Price: "3", Target: val},
 	)
 	names := []string{"Assets:Bank:A", "Assets:Bank:B", "Assets:Bank:C", "Assets:Broker:D", "Assets:Broker:E", "Liabilities:Card:F", "Expenses:Food:G", "Expenses:Food:H", "Income:Job:I", "Equity:Equity"}
 	for _, a := range names {
@@ -47,7 +50,7 @@ func c06TieJournal(r *RNG) (*Journal, string) {
 	for d := 0; d < r.Range(1, 3); d++ {
 		for _, a := range names[:9] {
 			if r.Chance(3, 4) {
-				c := Pick(r, []string{"CHF", "CHF", "AAA", "XXX", "BBB"})
+				c := Pick(r, []string{"CHF", "CHF", "AAA", "XXX", "BBB", "chf", "Aaa"})
 				j.Dirs = append(j.Dirs, JDir{Kind: 't', Date: day + d*17, Desc: "same", Bookings: []JBook{{"Equity:Equity", a, amt, c}}})
 			}
 		}
@@ -74,7 +77,7 @@ func runC06(c *Ctx) {
 		if r.Chance(1, 2) {
 			j, val = c06TieJournal(r)
 		} else {
-			o := JGenOpts{MaxAccounts: r.Range(3, 8), MaxDays: r.Range(1, 6), Unicode: true, BaseDay: 737000 + r.Intn(1500), SpanDays: Pick(r, []int{0, 30, 300}), Prices: true, Valuation: "CHF", ChainPrices: true}
+			o := JGenOpts{MaxAccounts: r.Range(3, 8), MaxDays: r.Range(1, 6), Unicode: true, BaseDay: 737000 + r.Intn(1500), SpanDays: Pick(r, []int{0, 30, 300}), Prices: true, Valuation: "CHF", ChainPrices: true, CaseVariants: true}
 			j, _ = GenJournal(r, o)
 			val = "CHF"
 		}
